@@ -166,8 +166,9 @@ def run(ctx):
                line=st.get('ln'))
 
     # ---------------------------------------------------------------- C05.6 / C05.7
-    from .c04 import c049
+    from .c04 import c049, c0410
     c049(ctx, rid='C05.6')
+    c0410(ctx, rid='C05.8')
     ctx.rule('C05.7', 'the thread index never runs ahead of truth: every save_index in ContinuityStore is either dominated by the Ok edge of the log append / create_continuity call that made the thread it names exist, or stores an id that was found by scanning the log. An index entry written before the creation frame survives a crash as a default thread with no frames — every later append to it fails.')
     from .c01 import logical_append_sites
     lsites = logical_append_sites(P, [x for x in P.callers(APPEND) if x.fn.path.startswith(STORE)])
